@@ -1696,7 +1696,15 @@ impl<'t> Cloner<'t> {
                 Ok(_) => unreachable!(),
                 Err(mut new_array) => {
                     match new_array.repr() {
-                        Repr::Byte | Repr::Int | Repr::Float | Repr::String => Ok(()),
+                        Repr::Byte | Repr::Int | Repr::Float => Ok(()),
+                        // The elements are pointers to strings which live in the heap of the
+                        // original array, they must be copied as well
+                        Repr::String => deep_clone_elems(&mut new_array, |e: &GcStr| {
+                            match self.deep_clone_str(e)? {
+                                ValueRepr::String(s) => Ok(s),
+                                _ => unreachable!(),
+                            }
+                        }),
                         Repr::Array => {
                             deep_clone_elems(&mut new_array, |e| self.deep_clone_array(e))
                         }
